@@ -455,6 +455,12 @@ def run(ctx):
             n = callee_name(t["fn"].get("path", ""))
             if n in ("to_ascii_lowercase", "make_ascii_lowercase", "to_lowercase"):
                 lower = True
+            if n == "eq_ignore_ascii_case":
+                # the std spelling of "lower-case, then compare"
+                for a in ev.call_args(bb):
+                    if a[0] == "str" and a[1] in ("yes", "on", "true", "1", "y"):
+                        lits.add(a[1])
+                        lower = True
             if n == "eq":
                 for a in ev.call_args(bb):
                     if a[0] == "str" and a[1] in ("yes", "on", "true", "1", "y"):
